@@ -314,7 +314,8 @@ func vfRunResp(t *testing.T, sc *vfRespScript, out *vfWriter) { //nolint:gocogni
 				continue
 			}
 			releaseParked()
-			ic.UnbindLocalStream(b.info)
+			cp := *b.info // the stream is named by an equal description, not by the object Bind was given
+			ic.UnbindLocalStream(&cp)
 			delete(streams, st.S)
 			stale[st.S] = b
 			out.Emit(vfM{"a": "unbind", "s": st.S})
